@@ -383,7 +383,7 @@ func windowCase(idx int64, r *rand.Rand) {
 }
 
 func TestCheck(t *testing.T) {
-	rt.Cases(3000, 300000, func(idx int64) {
+	rt.Cases(30000, 3000000, func(idx int64) {
 		r := rt.CaseRand(18, idx)
 		rt.Case()
 		if idx%6 == 5 {
